@@ -180,4 +180,60 @@ def points(tier, seed):
                 kind = "type" if pl == "top" else {"map-key": "key", "map-value": "val"}.get(pl, "elem")
                 out.append(("%s|%s|%s" % (ll, wl, pl), cast, kw, {"a": (kind, exp)}, base))
                 n += 1
+    # per-error-kind accounting of collect-all mode: a value of the RIGHT class that breaks a bound, a sign, a
+    # size, uniqueness or a length, in every position, always next to a second field that the deserializer's
+    # own validation rejects - which of these errors survive in the report is decided by the clauses
+    leaves = {ll: (leaf, ok) for ll, leaf, ok in LEAVES}
+    for ll, bad in BOUND_BAD:
+        leaf, ok = leaves[ll]
+        for pl, mk in POSITIONS:
+            r = mk(leaf, ok, bad)
+            if r is None:
+                continue
+            field, value, valid, exp = r
+            out.append(_with_rejected_sibling(n, "%s|out-of-bound|%s" % (ll, pl), field, value, valid,
+                                              "bound" if pl == "top" else "elem", exp))
+            n += 1
+    for label, field, value, valid in SHAPE_BAD:
+        out.append(_with_rejected_sibling(n, "%s|shape|top" % label, field, value, valid, "bound", ()))
+        n += 1
     return out
+
+
+def _with_rejected_sibling(n, label, field, value, valid, kind, exp):
+    fields = [{"name": "a", "field": field}, {"name": "b", "field": _STR},
+              {"name": "c", "field": _num("Integer", "Any", max=("int", 9))}]
+    kw = [("a", value), ("b", ("str", "ok")), ("c", ("int", 50))]
+    base = {"a": valid, "b": ("str", "ok"), "c": ("int", 1)}
+    cast = {"name": "L%d" % n, "fields": fields, "required": [], "additional": False}
+    return (label, cast, kw, {"a": (kind, exp)}, base)
+
+
+# right class, wrong value
+BOUND_BAD = [("Integer/bounds", ("int", 50)), ("Number/mult", ("int", 3)), ("Float/xmax", ("flt", 3, 0)),
+             ("String/len", ("str", "toolong")), ("String/pat", ("str", "ABC")),
+             ("Integer/Positive", ("int", -3)), ("Number/NonNegative", ("int", -3)), ("Float/Negative", ("flt", 3, 0))]
+
+_INT = _num("Integer", "Any")
+_I = lambda z: ("int", z)  # noqa: E731
+# right element classes, wrong size / uniqueness / length of the collection
+SHAPE_BAD = [
+    ("array/maxItems", {"t": "seqeach", "k": "list", "item": _INT, "sz": [None, 2], "uniq": False},
+     ("list", [_I(1), _I(2), _I(3)]), ("list", [_I(1)])),
+    ("array/minItems", {"t": "seqeach", "k": "list", "item": _INT, "sz": [2, None], "uniq": False},
+     ("list", [_I(1)]), ("list", [_I(1), _I(2)])),
+    ("array/uniqueItems", {"t": "seqeach", "k": "list", "item": _INT, "sz": _NOSZ, "uniq": True},
+     ("list", [_I(1), _I(1)]), ("list", [_I(1)])),
+    ("deque/maxItems", {"t": "seqeach", "k": "deque", "item": _INT, "sz": [None, 1], "uniq": False},
+     ("deque", [_I(1), _I(2)]), ("deque", [_I(1)])),
+    ("set/maxItems", {"t": "set", "imm": False, "item": _INT, "sz": [None, 1]},
+     ("set", False, [_I(1), _I(2)]), ("set", False, [_I(1)])),
+    ("map/maxItems", {"t": "mapkv", "kf": _STR, "vf": _INT, "sz": [None, 1]},
+     ("dict", [(("str", "k"), _I(1)), (("str", "m"), _I(2))]), ("dict", [(("str", "k"), _I(1))])),
+    ("array-positional/too-long", {"t": "seqpos", "k": "list", "items": [_INT, _STR], "sz": _NOSZ, "uniq": False, "additional": False},
+     ("list", [_I(1), _X, _I(3)]), ("list", [_I(1), _X])),
+    ("deque-positional/too-long", {"t": "seqpos", "k": "deque", "items": [_INT, _STR], "sz": _NOSZ, "uniq": False, "additional": False},
+     ("deque", [_I(1), _X, _I(3)]), ("deque", [_I(1), _X])),
+    ("tuple/too-long", {"t": "tuple", "items": [_STR, _INT], "uniq": False},
+     ("tuple", [_X, _I(1), _I(2)]), ("tuple", [_X, _I(1)])),
+]
